@@ -4,6 +4,10 @@ import json, os
 HERE = os.path.dirname(os.path.dirname(os.path.abspath(__file__)))
 
 CHECKS = {
+ 'C13': dict(level='exploration', ref='3/C13',
+   technique='seeded registration histories over 15 callable / class shapes x 3 registration APIs with an unregistered twin compiled from the same source as oracle; rejected registrations and raising interactive-mode bodies as faults with a registry-unchanged check',
+   text='For every registration: register/external leave the original untouched (class attributes by identity, direct calls equal the twin\'s even with bindings present), the registry\'s version reached by selector, by the original object, by scoped selector and by the returned object receives the bindings, metadata (name, doc, signature, module) is preserved, class versions are subclasses whose instances are instances of - and, without registered methods, exactly of - the original class and pickle whenever the original does; each of 7 kinds of invalid registration must raise and leave every registry lookup unchanged; re-registration is possible only inside an interactive block and rejected again after the block exits by return or by exception.',
+   note='No schedule is involved (DESIGN 3/C13 says so): the simulated facets are the registration history and the rejected operation; the shape x API product is sampled.'),
  'C20': dict(level='exploration', ref='3/C20',
    technique='seeded prefix histories over the union operation alphabet (incl. failed operations, locked configs, overlapping constants defined in interactive mode), then clear_config, with a fresh twin world (harness reset + same registrations/constants) running the same observations and suffix history; a share of runs races the clear with operative-config readers under the simulated scheduler',
    text='After the clear, config_str, operative_config_str, the lock flag, query_parameter on every key ever bound, default-only probe calls, singleton caches and constant lookups are observed in the cleared world and in the fresh twin, then the same suffix history runs on both; the observation logs must be identical (indistinguishable by later behaviour, not only by a snapshot), and the clear itself must not raise. With clear_constants=True only gin.REQUIRED may remain.',
